@@ -260,6 +260,36 @@ Theorem c17_no_null_node : forall wd sc e, simple_abs wd -> e <> ENullNode ->
 Proof. exact no_null_node. Qed.
 Print Assumptions c17_no_null_node.
 
+(* ---------------------------------------------------------------- two rules stated explicitly *)
+
+(* every indented binding of a build statement is evaluated in the enclosing FILE-level scope: the bindings the
+   statement has already made are never consulted (bindings of one build statement do not see each other) *)
+Theorem c17_build_bindings_see_file_scope_only : forall sc binds params,
+  fst (build_bindings sc binds params) = fold_left (bind_in_file_scope sc) binds params.
+Proof. exact build_bindings_see_file_scope_only. Qed.
+Print Assumptions c17_build_bindings_see_file_scope_only.
+
+(* x = v1 then y = $x in one build statement: y is the file-level value of x *)
+Theorem c17_build_binding_ignores_earlier_binding : forall sc x y v1,
+  x <> [] -> all_simple x -> x <> y -> no_dollar v1 ->
+  aget y (fst (build_bindings sc [BBind x v1; BBind y (36 :: x)] [])) = Some (lookup_binding sc x) /\
+  aget x (fst (build_bindings sc [BBind x v1; BBind y (36 :: x)] [])) = Some v1.
+Proof. exact build_binding_ignores_earlier_binding. Qed.
+Print Assumptions c17_build_binding_ignores_earlier_binding.
+
+(* the shell-quoting mode of $in / $out belongs to the QUERIED variable and is kept through every nested
+   expansion: with command = $depfile and depfile = $out<suffix>, the command gets the quoted outputs (also though
+   it reaches them through $depfile), the depfile attribute itself gets them unquoted *)
+Theorem c17_quote_mode_is_per_query : forall ex outs ps rule sc suffix,
+  @aget bytes nm_command ps = None -> @aget bytes nm_depfile ps = None ->
+  @aget bytes nm_command rule = Some (36 :: nm_depfile) ->
+  @aget bytes nm_depfile rule = Some (36 :: nm_out ++ suffix) ->
+  no_dollar suffix -> not_simple_head suffix ->
+  fst (lookup_named ex outs ps rule sc nm_command) = join_with 32 (map shell_escaped outs) ++ suffix /\
+  fst (lookup_named ex outs ps rule sc nm_depfile) = join_with 32 outs ++ suffix.
+Proof. exact quote_mode_is_per_query. Qed.
+Print Assumptions c17_quote_mode_is_per_query.
+
 (* ---------------------------------------------------------------- lexer and shell-quoting part *)
 Module Lex.
 From LLB Require Import Base.Bytes Parse.NinjaLex Parse.NinjaLexProofs Path.ShellQuote Path.ShellQuoteProofs
